@@ -124,6 +124,25 @@ fn build_grid() -> Vec<Leaf> {
             v.push(Leaf { name: name(format!("grid/{}/{}", fname, on)), stmt: st, global_only: false, sema: *osema && fsema });
         }
     }
+    // delay designators: every literal class with every unit, and expressions
+    let mut designators: Vec<(String, Expr)> = Vec::new();
+    for unit in ["ns", "us", "µs", "ms", "s", "dt"] {
+        designators.push((format!("int_{}", unit), Expr::Timing(s("100"), false, unit)));
+        designators.push((format!("float_{}", unit), Expr::Timing(s("2.5"), true, unit)));
+    }
+    designators.push((s("exp_dt"), Expr::Timing(s("1e3"), true, "dt")));
+    designators.push((s("dot_ms"), Expr::Timing(s(".5"), true, "ms")));
+    designators.push((s("trail_ns"), Expr::Timing(s("5."), true, "ns")));
+    designators.push((s("mul"), bin(BinOp::Mul, Expr::Timing(s("2.5"), true, "ns"), int(2))));
+    designators.push((s("mul_id"), bin(BinOp::Mul, int(2), id("d"))));
+    designators.push((s("add"), bin(BinOp::Add, id("d"), Expr::Timing(s("10"), false, "ns"))));
+    designators.push((s("paren"), Expr::Paren(Box::new(id("d")))));
+    designators.push((s("neg"), un(UnOp::Neg, id("d"))));
+    for (dn, d) in designators {
+        v.push(Leaf { name: name(format!("grid/delay_designator/{}", dn)), stmt: Stmt::Delay(d.clone(), vec![opd("r")]), global_only: false, sema: false });
+        v.push(Leaf { name: name(format!("grid/delay_designator_noop/{}", dn)), stmt: Stmt::Delay(d.clone(), vec![opd_i("q", 0), Operand::Hw(s("$1"))]), global_only: false, sema: false });
+        v.push(Leaf { name: name(format!("grid/duration_init/{}", dn)), stmt: Stmt::Decl { konst: false, ty: Ty::plain("duration"), name: s("wd1"), init: Some(d) }, global_only: false, sema: false });
+    }
     // declarations: qualifier x type
     let types: Vec<(Ty, Expr)> = vec![
         (Ty::plain("int"), int(1)),
@@ -243,6 +262,8 @@ pub fn leaves() -> Vec<Leaf> {
         nosema(leaf("barrier_all", Stmt::Barrier(vec![]))),
         leaf("delay", Stmt::Delay(Expr::Timing(s("10"), false, "ns"), vec![opd("r")])),
         leaf("delay_id", Stmt::Delay(id("d"), vec![opd_i("q", 0), opd_i("q", 1)])),
+        leaf("delay_micro", Stmt::Delay(Expr::Timing(s("20"), false, "µs"), vec![opd("r")])),
+        leaf("decl_duration_float", Stmt::Decl { konst: false, ty: Ty::plain("duration"), name: s("v30"), init: Some(Expr::Timing(s("2.5"), true, "µs")) }),
         leaf("break", Stmt::Break),
         leaf("continue", Stmt::Continue),
         leaf("end", Stmt::End),
@@ -429,6 +450,17 @@ pub fn unary_mix() -> Vec<Expr> {
         }
         for u2 in UNOPS {
             v.push(un(u, un(u2, id("a"))));
+        }
+        // literal operands directly after the operator (sign folding must not change the tree)
+        for lit in [int(2), flt("1.5")] {
+            v.push(un(u, lit.clone()));
+            v.push(un(u, un(u, lit.clone())));
+            for o in BINOPS {
+                v.push(bin(o, un(u, lit.clone()), id("b")));
+                v.push(un(u, bin(o, lit.clone(), id("b"))));
+                v.push(bin(o, id("a"), un(u, lit.clone())));
+                v.push(bin(o, un(u, lit.clone()), un(u, lit.clone())));
+            }
         }
     }
     for o in BINOPS {
